@@ -49,10 +49,15 @@ pub fn tree_with_history(rng: &mut Rng, case: u64, ev: &mut Ev, partial_bias: bo
     cfg.p_missing = if partial_bias || rng.chance(0.4) { 0.3 } else { 0.0 };
     cfg.p_contra = if rng.chance(0.6) { 0.5 } else { 0.0 };
     cfg.p_zero_pred = if rng.chance(0.1) { 0.2 } else { 0.0 };
-    let sp = gen::spec(rng, &cfg);
+    let mut sp = gen::spec(rng, &cfg);
     let scr = rng.chance(0.4);
+    let far = if rng.chance(0.06) { Some(gen::far_shift(rng, n)) } else { None };
+    if let Some(d) = &far {
+        sp.translate(d);
+        ev.inc("trees_translated_far_from_the_origin");
+    }
     let mut t = gen::build::<2>(&sp, rng, scr);
-    hist.push(format!("spec tree depth<={} missing={} contra={} regime={}", cfg.max_depth, cfg.p_missing, cfg.p_contra, rg.name()));
+    hist.push(format!("spec tree depth<={} missing={} contra={} regime={}{}", cfg.max_depth, cfg.p_missing, cfg.p_contra, rg.name(), far.map_or(String::new(), |d| format!(" translated by {:?}", d))));
     let steps = rng.below(if rng.big { 6 } else { 4 });
     let mut out_dim = m;
     for _ in 0..steps {
